@@ -13,6 +13,7 @@ import LP.Driver.Eval
 import LP.Driver.Infer
 import LP.Driver.Factor
 import LP.Driver.Zp
+import LP.Driver.PIval
 import Std.Data.HashMap
 open LP LP.Driver
 
@@ -32,6 +33,7 @@ def checkLine (line : String) : String × String × Verdict :=
         | "di" => checkQI "di" op args r
         | "vi" => checkVI op args r
         | "vil" => checkVIL op args r
+        | "pi" => checkPI op args r
         | "fsi" => checkFSI op args r
         | "fset" => checkFSet op args r
         | "hset" => checkHSet args r
